@@ -389,6 +389,117 @@ theorem bulk_eprop {b : Engine} (hb : IsBulk ns es b) (hnd : (ns.map (·.ext)).N
   rw [this]
   cases (X.reverse.map (fun x => ((relOf ns x.1, x.2.1), x.2.2))).lookup ((⟨a, nm, c⟩ : Rel), k) <;> rfl
 
+/-! ### neighbours -/
+
+theorem bulkEdges_eq : bulkEdges ns es = es.map (edgeOf ns es) := rfl
+
+theorem count_filter_eq {α} [BEq α] [LawfulBEq α] (l : List α) (p : α → Bool) (a : α) :
+    (l.filter p).count a = if p a then l.count a else 0 := by
+  by_cases h : p a = true
+  · rw [if_pos h]; exact List.count_filter h
+  · rw [if_neg h]
+    apply List.count_eq_zero.mpr
+    intro hm
+    exact h (List.mem_filter.mp hm).2
+
+theorem count_map_congr {α β γ} [BEq β] [LawfulBEq β] [BEq γ] [LawfulBEq γ] (l : List α) (f : α → β) (f' : α → γ)
+    (x : β) (x' : γ) (h : ∀ a ∈ l, (f a == x) = (f' a == x')) : (l.map f).count x = (l.map f').count x' := by
+  induction l with
+  | nil => rfl
+  | cons a as ih =>
+    rw [List.map_cons, List.map_cons, List.count_cons, List.count_cons, h a List.mem_cons_self,
+      ih (fun b hb => h b (List.mem_cons_of_mem _ hb))]
+
+theorem relMatch_ok {b : Engine} (hb : IsBulk ns es b) (rel t : Option Nat) (hm : RelMatch b rel t)
+    (r nm a c : Nat) (hr : (bulkInterner ns es)[r]? = some nm) :
+    relOk rel ⟨a, r, c⟩ = Graph.relOk t ⟨a, nm, c⟩ := by
+  rcases hm with ⟨h1, h2⟩ | ⟨r0, nm0, h1, h2, h3⟩
+  · subst h1; subst h2; rfl
+  · subst h1; subst h2
+    rw [hb.interner] at h3
+    simp only [relOk, Graph.relOk]
+    rw [Bool.eq_iff_iff]
+    simp only [beq_iff_eq]
+    constructor
+    · intro h; subst h; rw [h3] at hr; cases hr; rfl
+    · intro h; subst h; exact name_inj _ (bulkInterner_nodup ns es) r r0 _ hr h3
+
+theorem edgeOf_interned (e : BulkEdge) (he : e ∈ es) : ∃ nm, (bulkInterner ns es)[(edgeOf ns es e).rel]? = some nm := by
+  obtain ⟨i, hi1, hi2⟩ := bulk_getId ns es e.rel (rel_interned ns es e he)
+  exact ⟨e.rel, by simp only [edgeOf, hi1, Option.getD_some]; exact hi2⟩
+
+theorem bulk_out {b : Engine} (hb : IsBulk ns es b) (hnd : (ns.map (·.ext)).Nodup)
+    (n : Nat) (rel t : Option Nat) (hm : RelMatch b rel t) :
+    ∃ el, b.neighbors n rel = some el ∧ (∀ e ∈ el, ∃ nm, b.interner[e.rel]? = some nm) ∧
+      ∀ r nm a c, b.interner[r]? = some nm → el.count ⟨a, r, c⟩ = ((bulkGraph ns es).out n t).count ⟨a, nm, c⟩ := by
+  obtain ⟨_, _, _, _, _, g6, _⟩ := txLoad_graph ns es hnd
+  obtain ⟨l0, hl0, hperm⟩ := buildForward_neighbors 0 (bulkEdges ns es) n rel
+  have hnb : b.neighbors n rel = some l0 := by
+    rw [neighbors_eq]
+    unfold Engine.neighborsFlushed
+    rw [hb.runs, hb.segs]
+    simp only [outRuns, List.contains_nil, Bool.false_eq_true, if_false]
+    rw [mapM_cons_some, persist_neighbors, hl0]
+    simp only [Option.map_some, Option.bind_some, List.mapM_nil, List.nil_append]
+    have : l0.filter (fun e => !blockedOut [] [] e) = l0 := by
+      apply List.filter_eq_self.mpr; intro e _; simp [blockedOut_nil]
+    rw [this]
+    simp
+  refine ⟨l0, hnb, ?_, ?_⟩
+  · intro e he
+    have hmem := (List.mem_filter.mp (hperm.mem_iff.mp he)).1
+    rw [bulkEdges_eq] at hmem
+    obtain ⟨e0, he0, rfl⟩ := List.mem_map.mp hmem
+    rw [hb.interner]; exact edgeOf_interned ns es e0 he0
+  · intro r nm a c hr
+    rw [hb.interner] at hr
+    rw [hperm.count_eq, count_filter_eq]
+    unfold Graph.out bulkGraph
+    rw [g6, count_filter_eq]
+    have hk := relMatch_ok ns es hb rel t hm r nm a c hr
+    simp only
+    rw [hk]
+    split
+    · rw [List.count_reverse, bulkEdges_eq]
+      exact count_map_congr es _ _ _ _ (fun e he => edge_key_iff ns es e he a r c nm hr)
+    · rfl
+
+theorem bulk_inc {b : Engine} (hb : IsBulk ns es b) (hnd : (ns.map (·.ext)).Nodup)
+    (n : Nat) (rel t : Option Nat) (hm : RelMatch b rel t) :
+    ∃ el, b.incoming Cfg.current n rel = some el ∧ (∀ e ∈ el, ∃ nm, b.interner[e.rel]? = some nm) ∧
+      ∀ r nm a c, b.interner[r]? = some nm → el.count ⟨a, r, c⟩ = ((bulkGraph ns es).inc n t).count ⟨a, nm, c⟩ := by
+  obtain ⟨_, _, _, _, _, g6, _⟩ := txLoad_graph ns es hnd
+  obtain ⟨l0, hl0, hperm⟩ := built_incoming Cfg.current.csrGuard 0 (bulkEdges ns es) n rel (Or.inl (by decide))
+  have hnb : b.incoming Cfg.current n rel = some l0 := by
+    rw [incoming_eq]
+    unfold Engine.incomingFlushed
+    rw [hb.runs, hb.segs]
+    simp only [inRuns, List.contains_nil, Bool.false_eq_true, if_false]
+    rw [mapM_cons_some, hl0]
+    simp only [Option.map_some, Option.bind_some, List.mapM_nil, List.nil_append]
+    have : l0.filter (fun e => !blockedIn [] [] e) = l0 := by
+      apply List.filter_eq_self.mpr; intro e _; simp [blockedIn_nil]
+    rw [this]
+    simp
+  refine ⟨l0, hnb, ?_, ?_⟩
+  · intro e he
+    have hmem := (List.mem_filter.mp (hperm.mem_iff.mp he)).1
+    rw [bulkEdges_eq] at hmem
+    obtain ⟨e0, he0, rfl⟩ := List.mem_map.mp hmem
+    rw [hb.interner]; exact edgeOf_interned ns es e0 he0
+  · intro r nm a c hr
+    rw [hb.interner] at hr
+    rw [hperm.count_eq, count_filter_eq]
+    unfold Graph.inc bulkGraph
+    rw [g6, count_filter_eq]
+    have hk := relMatch_ok ns es hb rel t hm r nm a c hr
+    simp only
+    rw [hk]
+    split
+    · rw [List.count_reverse, bulkEdges_eq]
+      exact count_map_congr es _ _ _ _ (fun e he => edge_key_iff ns es e he a r c nm hr)
+    · rfl
+
 end
 
 end Nervus.Storage
